@@ -129,6 +129,35 @@ def run(chk):
         if len(cfgs) % 3 == 0:
             cfg["imf_ext"] = "extrapolate"       # the primary constructor with a user-built, extrapolating IMF object
         cfgs.append(cfg)
+    # dynamical ejection on top (no escape): at EVERY requested age the BH mass remaining is BH_ret_dyn times the closed-form BH mass
+    # formed by then (the ejection is applied to each output row on its own)
+    ej_cfgs = []
+    for _ in range(3 if chk.tier == "quick" else 20):
+        cfg = FR.gen_config(rng, escape=False, kicks=False, cls="EvolvedMF", ntout=3)
+        cfg["tout"] = sorted(set([float(rng.choice([50.0, 300.0, 1000.0])), float(rng.choice([3000.0, 6000.0])), 12000.0]), reverse=bool(rng.random() < 0.5))
+        cfg["BH_ret_dyn"] = float(rng.choice([0.5, 0.3, 0.8]))
+        cfg["want_ifmr_grid"] = GRID
+        cfg.pop("imf_ext", None)
+        ej_cfgs.append(cfg)
+    for out in FR.run_many(ej_cfgs):
+        cfg = {kk: v for kk, v in out["cfg"].items() if kk != "want_ifmr_grid"}
+        if "error" in out or not out["converged"]:
+            chk.count("ejection runs that raised or did not converge (C04 / exempt)")
+            continue
+        chk.count("runs with dynamical ejection over several ages")
+        chk.note_distinct(cfg)
+        for row, t in enumerate(cfg["tout"]):
+            stars, refN, refM, mto, unb, cell = reference(out, row)
+            formed = float(refM[2].sum())
+            if unb > 1e-6 * max(cfg["N0"], 1.0) or formed <= 0:
+                continue
+            got = float(out["Mr"][2][row].sum())
+            lightest = float(out["bins"][3][0][0])
+            want = cfg["BH_ret_dyn"] * formed
+            if abs(got - want) > 4e-3 * formed + 0.2 * lightest:
+                chk.fail("remnant mass per bin equals the IMF-weighted remnant mass of the progenitors whose remnant falls in that bin", dict(cfg=cfg, row=row, age=t),
+                         dict(cls="BH", total_remaining=got, closed_form_formed=formed, BH_ret_dyn=cfg["BH_ret_dyn"], expected_remaining=want))
+    chk.evaluations += len(ej_cfgs)
     tight = [(dict(c), 1e-9) for c in cfgs[: (5 if chk.tier == "quick" else 30)]]
     outs = FR.run_many(cfgs + tight)
     base, tightened = outs[:len(cfgs)], outs[len(cfgs):]
